@@ -800,7 +800,7 @@ package lisp
 //@   ensures  [array-or-error] result.Type == LArray || result.Type == LError
 //@   ensures  [array-shape] result.Type == LArray ==> len(result.Cells) == 2 && result.Cells[0] != nil && result.Cells[1] != nil && fresh(result.Cells[1]) && result.Cells[1].Type == LSExpr
 //@   ensures  [array-over-the-given-cells] result.Type == LArray && len(cells) > 0 ==> arr(result.Cells[1].Cells) == arr(cells) && off(result.Cells[1].Cells) == off(cells) && len(result.Cells[1].Cells) == len(cells) && cap(result.Cells[1].Cells) == cap(cells)
-//@   ensures  [fresh-backing-when-none-given] result.Type == LArray && len(cells) == 0 ==> fresh(arr(result.Cells[1].Cells))
+//@   ensures  [fresh-backing-when-none-given] result.Type == LArray && len(cells) == 0 ==> fresh(arr(result.Cells[1].Cells)) && cap(result.Cells[1].Cells) == len(result.Cells[1].Cells)
 //@   modifies nothing
 //@   property C11
 
@@ -883,11 +883,12 @@ package lisp
 //@   property C11
 
 //@ func builtinSlice
-//@   requires rtOK(env) && argsOK(args, 4) && bytesOK(args.Cells[1])
+//@   requires rtOK(env) && argsOK(args, 4) && lvalOK(args.Cells[1])
 //@   requires [no-integer-list-to-text-conversion] (args.Cells[0].Str != "string" && args.Cells[0].Str != "bytes") || args.Cells[1].Type == LString || args.Cells[1].Type == LBytes
 //@   ensures  [list-view-shares-the-range-and-is-capacity-clamped] old(args.Cells[0].Str) == "list" && old(args.Cells[1].Type) == LSExpr && result.Type != LError ==> result.Type == LSExpr && fresh(result) && cap(result.Cells) == len(result.Cells) && arr(result.Cells) == old(arr(args.Cells[1].Cells)) && off(result.Cells) == old(off(args.Cells[1].Cells)) + old(args.Cells[2].Int) && len(result.Cells) == old(args.Cells[3].Int) - old(args.Cells[2].Int) && result.sealed == old(args.Cells[1].sealed)
 //@   ensures  [bytes-view-is-capacity-clamped] old(args.Cells[0].Str) == "bytes" && old(args.Cells[1].Type) == LBytes && result.Type != LError ==> result.Type == LBytes && fresh(result) && typeis(result.Native, *[]byte) && cap(*result.Native.(*[]byte)) == len(*result.Native.(*[]byte)) && arr(*result.Native.(*[]byte)) == old(arr(*args.Cells[1].Native.(*[]byte)))
 //@   ensures  [vector-from-a-sealed-list-is-a-copy] old(args.Cells[0].Str) == "vector" && old(args.Cells[1].Type) == LSExpr && old(args.Cells[1].sealed) && result.Type == LArray && old(args.Cells[3].Int) > old(args.Cells[2].Int) ==> arr(result.Cells[1].Cells) != old(arr(args.Cells[1].Cells))
+//@   ensures  [vector-result-is-capacity-clamped] old(args.Cells[0].Str) == "vector" && result.Type == LArray ==> cap(result.Cells[1].Cells) == len(result.Cells[1].Cells)
 //@   modifies nothing
 //@   property C11
 
@@ -971,3 +972,33 @@ package lisp
 //@   modifies nothing
 //@   nopanic
 //@   property C14 C13
+
+// assoc / dissoc hand back a map of their own: neither the value nor its map
+// data is the argument's, so assoc! / dissoc! on either side stays on that side.
+// (What is inside the new map data is not under contract: it is reached through
+// the host-replaceable Map interface.)
+//@ func builtinAssoc
+//@   uses singletons
+//@   requires rtOK(env) && argsOK(args, 3) && lvalOK(args.Cells[0])
+//@   ensures  [result-is-a-new-map] result.Type == LSortMap ==> fresh(result) && typeis(result.Native, *MapData) && fresh(result.Native.(*MapData))
+//@   property C11
+
+//@ func builtinDissoc
+//@   uses singletons
+//@   requires rtOK(env) && argsOK(args, 2) && lvalOK(args.Cells[0])
+//@   ensures  [result-is-a-new-map] result.Type == LSortMap ==> fresh(result) && typeis(result.Native, *MapData) && fresh(result.Native.(*MapData))
+//@   property C11
+
+//@ func (*LVal).copyMapData
+//@   requires v != nil && lvalOK(v) && v.Type == LSortMap
+//@   loop 1 (rangeindex) invariant [idx] -1 <= rangeindex
+//@   ensures  [fresh-map-data] result1 == nil ==> result0 != nil && fresh(result0)
+//@   property C11
+
+//@ func makeByteSeq
+//@   requires v != nil && lvalOK(v)
+//@   loop 1 (rangeindex) invariant [idx] -1 <= rangeindex
+//@   ensures  [exact-capacity] result != nil && fresh(result) && (result.Type == LSExpr ==> cap(result.Cells) == len(result.Cells))
+//@   ensures  [a-list-for-text] old(v.Type) == LString || old(v.Type) == LBytes ==> result.Type == LSExpr && !result.sealed
+//@   modifies nothing
+//@   property C11
